@@ -19,6 +19,8 @@ struct Shared {
     stale: AtomicUsize,
     live_handles: AtomicUsize,
     early_drop: AtomicUsize,
+    torn_looks: AtomicUsize,
+    looks: AtomicUsize,
 }
 struct Impl { value: u32, sh: Arc<Shared> }
 impl Impl {
@@ -58,7 +60,7 @@ fn main() {
         let rounds: usize = args.get(2).map(|s| s.parse().unwrap()).unwrap_or(20000);
         let sh = Arc::new(Shared { in_body: AtomicBool::new(false), overlaps: AtomicUsize::new(0), drops: AtomicUsize::new(0),
             drop_in_body: AtomicUsize::new(0), completed: AtomicUsize::new(0), stale: AtomicUsize::new(0),
-            live_handles: AtomicUsize::new(0), early_drop: AtomicUsize::new(0) });
+            live_handles: AtomicUsize::new(0), early_drop: AtomicUsize::new(0), torn_looks: AtomicUsize::new(0), looks: AtomicUsize::new(0) });
         let mut lost = 0usize;
         for r in 0..rounds {
             let obj: ICounter = ICounter::from(Impl { value: 0, sh: sh.clone() });
@@ -84,7 +86,7 @@ fn main() {
     let iters: usize = args.get(2).map(|s| s.parse().unwrap()).unwrap_or(2000);
     let sh = Arc::new(Shared { in_body: AtomicBool::new(false), overlaps: AtomicUsize::new(0), drops: AtomicUsize::new(0),
         drop_in_body: AtomicUsize::new(0), completed: AtomicUsize::new(0), stale: AtomicUsize::new(0),
-        live_handles: AtomicUsize::new(1), early_drop: AtomicUsize::new(0) });
+        live_handles: AtomicUsize::new(1), early_drop: AtomicUsize::new(0), torn_looks: AtomicUsize::new(0), looks: AtomicUsize::new(0) });
     let obj: ICounter = ICounter::from(Impl { value: 0, sh: sh.clone() });
     let mut joins = Vec::new();
     for t in 0..nthreads {
@@ -100,6 +102,21 @@ fn main() {
                 match rng % 10 {
                     0 | 1 => { sh2.live_handles.fetch_add(1, SeqCst); let c = handles[0].clone(); handles.push(c); }
                     2 | 3 => { if handles.len() > 1 { let h = handles.pop().unwrap(); drop(h); sh2.live_handles.fetch_sub(1, SeqCst); } }
+                    5 => {
+                        // a look at the implementation through the generated downcast: the closure runs
+                        // with the implementation to itself - no method body is in progress when it
+                        // starts, none starts while it runs
+                        let h = &handles[handles.len() - 1];
+                        let torn = interfaces::icounter::downcast_concrete(h.as_ref(), |imp: &Impl| {
+                            let before = imp.sh.in_body.load(SeqCst);
+                            let v1 = imp.value;
+                            std::thread::yield_now();
+                            let after = imp.sh.in_body.load(SeqCst);
+                            before || after || v1 != imp.value
+                        });
+                        sh2.looks.fetch_add(1, SeqCst);
+                        if torn != Some(false) { sh2.torn_looks.fetch_add(1, SeqCst); }
+                    }
                     4 => { let done = sh2.completed.load(SeqCst) as u32; let v = handles[handles.len() - 1].peek().unwrap();
                            if v < done { sh2.stale.fetch_add(1, SeqCst); } }
                     _ => {
@@ -122,10 +139,10 @@ fn main() {
     if sh.drops.load(SeqCst) != 0 { sh.early_drop.fetch_add(1, SeqCst); }
     sh.live_handles.fetch_sub(1, SeqCst);
     drop(obj);
-    println!("threads={} iters={} bumps={} final={} overlaps={} stale={} drops={} drop_in_body={} early_drop={}",
+    println!("threads={} iters={} bumps={} final={} overlaps={} stale={} drops={} drop_in_body={} early_drop={} looks={} torn_looks={}",
         nthreads, iters, total, final_value, sh.overlaps.load(SeqCst), sh.stale.load(SeqCst),
-        sh.drops.load(SeqCst), sh.drop_in_body.load(SeqCst), sh.early_drop.load(SeqCst));
-    let ok = total == final_value && sh.overlaps.load(SeqCst) == 0 && sh.stale.load(SeqCst) == 0
+        sh.drops.load(SeqCst), sh.drop_in_body.load(SeqCst), sh.early_drop.load(SeqCst), sh.looks.load(SeqCst), sh.torn_looks.load(SeqCst));
+    let ok = sh.torn_looks.load(SeqCst) == 0 && total == final_value && sh.overlaps.load(SeqCst) == 0 && sh.stale.load(SeqCst) == 0
         && sh.drops.load(SeqCst) == 1 && sh.drop_in_body.load(SeqCst) == 0 && sh.early_drop.load(SeqCst) == 0;
     std::process::exit(if ok { 0 } else { 1 });
 }
